@@ -224,6 +224,11 @@ def check_c06(tier):
     cov = {"states": meta["distinct"], "transitions": meta["transitions"], "traces_validated_against_impl": replayed + n_ev,
            "tlc": {"module": "History", "cfg": cfg, "wall_s": meta["wall_s"], "cached": meta.get("cached", False)},
            "exhaustive": True}
+    if tier == "thorough":
+        # unbounded complement of MirrorAlways / NoDangling: the set abstraction the action property RefinesMirrorInd (checked
+        # by TLC above on every transition) maps History.tla onto has Mirror / DefKeyed as INDUCTIVE invariants (Apalache)
+        import apalache
+        cov["apalache_inductive_invariant"] = apalache.mirror_inductive()
     return V.finish(
         coverage_extra=cov,
         rule="TLC visits every history of full-text versions over {conftest, helper, test} (6/5/5 versions incl. "
